@@ -219,9 +219,14 @@ class SNum(Sym):
             raise Unsupported("round(x, ndigits) of a symbolic value")
         if isinstance(self, SInt):
             return self
-        n = z3.Int(fresh_name("rnd"))
-        r = z3.ToReal(n)
         ex = current()
+        memo = ex.path.ghost.setdefault("round_memo", {})
+        key = z3.simplify(self.t).sexpr()
+        if key in memo:  # rounding is a function: the same argument gives the same integer
+            return SInt(memo[key])
+        n = z3.Int(fresh_name("rnd"))
+        memo[key] = n
+        r = z3.ToReal(n)
         ex.assume(z3.And(r - self.t <= z3.RealVal("1/2"), self.t - r <= z3.RealVal("1/2")))
         ex.path.ghost.setdefault("round_witness", []).append((self.t, n))
         return SInt(n)
